@@ -2,6 +2,7 @@ package props
 
 import (
 	"fmt"
+	"math/big"
 	"math/rand"
 	"runtime/debug"
 	"sort"
@@ -44,7 +45,7 @@ func init() {
 				n, nc, np = 3000000, 1500, 20000
 			}
 			return []runner.Phase{
-				{Name: "static", Variant: "plain", Cases: n, Run: c11static, Required: []string{"token_aware_with_key", "nonlocal_fallback", "rotation_checks", "rotation_checks_farther_tiers", "down_hosts"}},
+				{Name: "static", Variant: "plain", Cases: n, Run: c11static, Required: []string{"token_aware_with_key", "nonlocal_fallback", "rotation_checks", "rotation_checks_farther_tiers", "down_hosts", "names_differing_in_case_only", "replica_sets_compared"}},
 				{Name: "concurrent", Variant: "race", Cases: nc, Run: c11concurrent, CaseTimeout: 120 * time.Second, Required: []string{"concurrent_picks"}},
 				{Name: "concurrent-build", Variant: "race", Cases: nc * 10, Run: c11build, Required: []string{"concurrent_builds"}},
 				{Name: "cowlist-linearizable", Variant: "race", Cases: np, Run: c11cow, Required: []string{"histories_checked"}},
@@ -59,20 +60,23 @@ type c11host struct {
 	dc, rack string
 	up       bool
 	notified bool // HostDown was delivered to the policy
+	toks     []int64
 }
 
 type c11state struct {
-	hosts     []*c11host
-	kind      string // rr | dc | rack
-	token     bool
-	shuffle   bool
-	nonlocal  bool
-	localDC   string
-	localRack string
-	simple    bool
-	rf        int
-	dcrf      map[string]int
-	tokenless bool
+	hosts        []*c11host
+	kind         string // rr | dc | rack
+	token        bool
+	shuffle      bool
+	nonlocal     bool
+	localDC      string
+	localRack    string
+	simple       bool
+	rf           int
+	dcrf         map[string]int
+	tokenless    bool
+	caseTwins    bool // two datacenter / rack names differ only in letter case
+	extraRemoved bool // a further node (the only one of its rack) was known to the policy and has been removed again
 }
 
 func (s *c11state) String() string {
@@ -87,7 +91,11 @@ func (s *c11state) String() string {
 		}
 		hs = append(hs, fmt.Sprintf("%s@%s/%s:%s%v", h.id, h.dc, h.rack, st, h.h.Tokens()))
 	}
-	return fmt.Sprintf("%s hosts=[%s]", s.polName(), strings.Join(hs, " "))
+	x := ""
+	if s.extraRemoved {
+		x = " (after a further node in " + s.localDC + "/rack-of-its-own was added and removed)"
+	}
+	return fmt.Sprintf("%s hosts=[%s]%s", s.polName(), strings.Join(hs, " "), x)
 }
 
 func (s *c11state) polName() string {
@@ -149,9 +157,15 @@ func c11gen(r *rand.Rand) *c11state {
 	nd := 1 + r.Intn(3)
 	nr := 1 + r.Intn(3)
 	s.tokenless = r.Intn(60) == 0
+	// datacenter and rack names are case sensitive in Cassandra: now and then two of them differ only in case
+	dcNames, rackNames := []string{"dc0", "dc1", "dc2"}, []string{"r0", "r1", "r2"}
+	if r.Intn(8) == 0 {
+		dcNames, rackNames = []string{"dc0", "DC0", "dc1"}, []string{"r0", "R0", "r1"}
+		s.caseTwins = true
+	}
 	tok := int64(0)
 	for i := 0; i < n; i++ {
-		h := &c11host{id: fmt.Sprintf("h%d", i), dc: fmt.Sprintf("dc%d", r.Intn(nd)), rack: fmt.Sprintf("r%d", r.Intn(nr)), up: r.Intn(5) != 0}
+		h := &c11host{id: fmt.Sprintf("h%d", i), dc: dcNames[r.Intn(nd)], rack: rackNames[r.Intn(nr)], up: r.Intn(5) != 0}
 		if !h.up {
 			h.notified = r.Intn(2) == 0
 		}
@@ -160,15 +174,17 @@ func c11gen(r *rand.Rand) *c11state {
 			for t := 0; t < 1+r.Intn(3); t++ {
 				tok += int64(1+r.Intn(1<<20)) << 38
 				toks = append(toks, fmt.Sprint(tok-(1<<62)))
+				h.toks = append(h.toks, tok-(1<<62))
 			}
 		}
 		h.h = gocql.VerifNewHostInfo(h.id, []byte{10, 1, byte(i / 200), byte(i%200 + 1)}, 9042, h.dc, h.rack, toks, h.up)
 		s.hosts = append(s.hosts, h)
 	}
 	s.kind = []string{"rr", "dc", "rack"}[r.Intn(3)]
-	s.localDC = fmt.Sprintf("dc%d", r.Intn(nd))
-	s.localRack = fmt.Sprintf("r%d", r.Intn(nr))
+	s.localDC = dcNames[r.Intn(nd)]
+	s.localRack = rackNames[r.Intn(nr)]
 	s.token = r.Intn(3) != 0
+	s.extraRemoved = r.Intn(4) == 0
 	s.shuffle = s.token && r.Intn(3) == 0
 	s.nonlocal = s.token && r.Intn(2) == 0
 	if r.Intn(2) == 0 {
@@ -176,7 +192,7 @@ func c11gen(r *rand.Rand) *c11state {
 	} else {
 		s.dcrf = map[string]int{}
 		for d := 0; d < nd; d++ {
-			s.dcrf[fmt.Sprintf("dc%d", d)] = r.Intn(4)
+			s.dcrf[dcNames[d]] = r.Intn(4)
 		}
 	}
 	return s
@@ -224,6 +240,11 @@ func (s *c11state) build() gocql.HostSelectionPolicy {
 	if s.token {
 		pol.KeyspaceChanged(gocql.KeyspaceUpdateEvent{Keyspace: "ks"})
 	}
+	if s.extraRemoved && !s.tokenless {
+		extra := gocql.VerifNewHostInfo("extra", []byte{10, 1, 9, 9}, 9042, s.localDC, "rack-of-its-own", []string{fmt.Sprint(int64(1)<<62 + 12345), fmt.Sprint(int64(1)<<62 + 99)}, true)
+		pol.AddHost(extra)
+		pol.RemoveHost(extra)
+	}
 	for _, h := range s.hosts {
 		if !h.up && h.notified {
 			pol.HostDown(h.h)
@@ -267,6 +288,9 @@ func c11static(c *runner.Ctx, i int) {
 	}
 	if downN > 0 {
 		c.Add("down_hosts", 1)
+	}
+	if s.caseTwins {
+		c.Add("names_differing_in_case_only", 1)
 	}
 	qkind := r.Intn(6) // 0,1,2: routing key + known ks ; 3: unknown keyspace ; 4: no routing key ; 5: nil query
 	wit := func(extra string) map[string]interface{} {
@@ -376,6 +400,47 @@ func c11static(c *runner.Ctx, i int) {
 			owner, _, _ := gocql.VerifRingLookup("Murmur3Partitioner", hs, tokStr)
 			if owner != nil {
 				replicas = []*gocql.HostInfo{owner}
+			}
+		}
+		// the replicas themselves are Cassandra's for the ring as it is now (as a set; C10 looks at the details)
+		if ksName == "ks" {
+			var refNodes []*cqlref.Node
+			byID := map[string]bool{}
+			for _, h := range s.hosts {
+				rn := &cqlref.Node{ID: h.id, DC: h.dc, Rack: h.rack}
+				for _, t := range h.toks {
+					rn.Tokens = append(rn.Tokens, big.NewInt(t))
+				}
+				refNodes = append(refNodes, rn)
+			}
+			ring := cqlref.NewRing(refNodes)
+			if ring.Len() > 0 {
+				idx := ring.Index(big.NewInt(cqlref.Murmur3Token(rk)))
+				var exp []*cqlref.Node
+				okExp := true
+				if s.simple {
+					exp = ring.SimpleReplicas(idx, s.rf)
+				} else {
+					exp = ring.NTSReplicas3x(idx, s.dcrf)
+					if b := ring.NTSReplicas2x(idx, s.dcrf); !sameSet(exp, b) {
+						okExp = false
+					}
+				}
+				if okExp && len(exp) > 0 {
+					c.Add("replica_sets_compared", 1)
+					for _, n := range exp {
+						byID[n.ID] = true
+					}
+					same := len(replicas) == len(exp)
+					for _, h := range replicas {
+						if !byID[h.HostID()] {
+							same = false
+						}
+					}
+					if !same {
+						c.Violation("C11:"+pk+":replicas-not-cassandras", fmt.Sprintf("the replicas the policy holds for the query's token are %v, Cassandra places it on %v", ids(replicas), nodeIDs(exp)), wit(fmt.Sprintf("offered %v", ids(seq))))
+					}
+				}
 			}
 		}
 		// expected prefix groups
